@@ -91,6 +91,17 @@ func (m *c17m) d17Families() {
 		n := 0
 		put("full-width-2", d, d17Full(d, &n), d17SetTy(str, d), "ok")
 	}
+	// (b') a number that travels as text with a huge binary exponent, as a member of a set: parsed in
+	// microseconds, expanded in decimal by the set hash (the JSON half's recorded finding, through msgpack;
+	// first seen by the thorough tier: 51 MB for a 71-byte document)
+	{
+		it := mpArr(mpStr("1p4000000"))
+		b := mpWrite(nil, it)
+		ctx.Eval("family huge-binary-exponent-set-member", true)
+		ctx.Tag("family:huge-exponent:set-member")
+		m.add(c17mCase{b: b, t: cty.Set(cty.Number), tag: "family:huge-exponent:set-member"})
+		m.add(c17mCase{b: b, t: cty.List(cty.Number), tag: "family:huge-exponent:list-member"})
+	}
 	// (c) an unknown value at the innermost level: ok or err, not a panic
 	for d := 1; d <= 8; d++ {
 		put("unknown-member", d, d17Chain(d17PlainUnknown(), d), d17SetTy(str, d), "")
